@@ -26,7 +26,8 @@ def main(opts) -> int:
     classes = [s["class"] for s in got1["signatures"]]
     print(f"replay {opts.arg}: expected class {want}; observed {classes or 'no violation'}; "
           f"log digest {got1['log_digest']} (second execution: {got2['log_digest']})")
-    if want == "hashseed_dependent":
+    if want == "hashseed_dependent" and rep.get("seed_idx") == -1:
+        # found by the sampled cross-check: two fresh interpreters under different hash seeds
         if got1["log_digest"] != got2["log_digest"]:
             print(f"VIOLATION property={rep['property']} replay={opts.arg}")
             return 1
